@@ -1,5 +1,6 @@
 import Gaftools.Drv.Conv
 import Gaftools.Spec.Glue
+import Gaftools.Props.C01b
 /-!
 # Reflection — the driver's executable validity test decides the hypotheses the C01–C05 theorems carry
 
@@ -179,5 +180,96 @@ theorem validRGFAB_complete (t : GfaFile) (ht : TaggedRGFA t) (hv : ValidRGFA (r
     validRGFAB t (segsOf t) = true := by
   rw [validRGFAB_iff, segsOf_eq]
   exact ⟨length_filterMap_of_isSome rsegOf t.segs ht.tagged, ht.ln, hv⟩
+
+/-! ## the record-level test `recValid` -/
+
+open Gaftools.Gaf Gaftools.Conv Gaftools.ConvText in
+/-- an unstable record the driver accepts satisfies the hypothesis `WalkRec` of `C01.toStable_locus` and is '+'-stranded -/
+theorem recValid_walk (segs : List RSeg) (r : Rec) (hs : isStable r.path = false) (h : recValid segs r = true) :
+    Gaftools.C01.WalkRec segs (parseUnstableSteps r.path) r.plen r.ps r.pe ∧ r.strand = ['+'] := by
+  unfold recValid at h
+  simp only [hs, Bool.false_eq_true, ↓reduceIte, Bool.and_eq_true, List.all_eq_true, decide_eq_true_eq, beq_iff_eq,
+    Bool.not_eq_true', List.isEmpty_eq_false_iff] at h
+  obtain ⟨⟨⟨⟨⟨h1, h2⟩, h3⟩, h4⟩, h5⟩, h6⟩ := h
+  refine ⟨⟨h2, h3, h4, ?_, ?_, ?_⟩, h1⟩ <;> omega
+
+open Gaftools.Gaf Gaftools.Conv Gaftools.ConvText in
+/-- a stable record on a bare contig name that the driver accepts satisfies `BareRec` of `C01.toUnstable_bare`,
+    and its path-length column is the contig length -/
+theorem recValid_bare (segs : List RSeg) (r : Rec) (c : String) (hs : isStable r.path = true)
+    (hp : (parseStableItems r.path).bind spathOfItems = some (.bare c)) (h : recValid segs r = true) :
+    Gaftools.C01.BareRec segs c r.ps r.pe ∧ ctgLen segs c = some (r.plen : Int) := by
+  unfold recValid at h
+  simp only [hs, hp, ↓reduceIte, Bool.and_eq_true, decide_eq_true_eq, List.contains_iff_mem] at h
+  obtain ⟨⟨h1, h2⟩, h3⟩ := h
+  cases hc : ctgLen segs c with
+  | none => simp [hc] at h3
+  | some L =>
+    simp only [hc, Bool.and_eq_true, decide_eq_true_eq, beq_iff_eq] at h3
+    obtain ⟨h4, h5⟩ := h3
+    refine ⟨⟨h1, ⟨by omega, by omega⟩, L, hc, h4⟩, ?_⟩
+    congr 1
+    omega
+
+/-- every list of images has a list of preimages -/
+theorem exists_preimage_list {α β} (f : α → β) (P : α → Prop) : ∀ (l : List β),
+    (∀ y ∈ l, ∃ x, P x ∧ y = f x) → ∃ run : List α, run.map f = l ∧ ∀ x ∈ run, P x := by
+  intro l
+  induction l with
+  | nil => intro _; exact ⟨[], rfl, by simp⟩
+  | cons y ys ih =>
+    intro h
+    obtain ⟨x, hx, rfl⟩ := h y (by simp)
+    obtain ⟨run, hr, hP⟩ := ih (fun y hy => h y (by simp [hy]))
+    refine ⟨x :: run, by simp [hr], ?_⟩
+    intro z hz
+    rcases List.mem_cons.1 hz with rfl | hz
+    · exact hx
+    · exact hP z hz
+
+/-- the driver's pairwise test on the projected run is `touching` -/
+theorem touching_of_zip : ∀ (run : List RSeg),
+    (List.zip (run.map fun s => (⟨s.id, s.so, s.en⟩ : Gaftools.Conv.Seg))
+        (run.map fun s => (⟨s.id, s.so, s.en⟩ : Gaftools.Conv.Seg)).tail).all
+      (fun p => p.1.en == p.2.so) = true → Gaftools.C01.touching run
+  | [] => fun _ => trivial
+  | [_] => fun _ => trivial
+  | a :: b :: r => by
+    intro h
+    simp only [List.map_cons, List.tail_cons, List.zip_cons_cons, List.all_cons, Bool.and_eq_true, beq_iff_eq] at h
+    refine ⟨h.1, touching_of_zip (b :: r) ?_⟩
+    simpa using h.2
+
+open Gaftools.Gaf Gaftools.Conv Gaftools.ConvText in
+/-- a stable interval-list record the driver accepts satisfies the hypotheses of `C01.toUnstable_ivs` -/
+theorem recValid_ivs (segs : List RSeg) (hv : ValidRGFA segs) (r : Rec) (l : List OIv) (hs : isStable r.path = true)
+    (hp : (parseStableItems r.path).bind spathOfItems = some (.ivs l)) (h : recValid segs r = true) :
+    l ≠ [] ∧ (∀ x ∈ l, Gaftools.C01.TiledIv segs x) ∧ (0 : Int) ≤ r.ps ∧ (r.ps : Int) ≤ r.pe ∧ (r.pe : Int) ≤ plenS l ∧
+      (r.plen : Int) = plenS l ∧ r.strand = ['+'] := by
+  have _ := hv
+  unfold recValid at h
+  simp only [hs, hp, ↓reduceIte, Bool.and_eq_true, decide_eq_true_eq, beq_iff_eq, Bool.not_eq_true',
+    List.isEmpty_eq_false_iff, List.all_eq_true] at h
+  obtain ⟨⟨⟨⟨⟨h1, h2⟩, h3⟩, h4⟩, h5⟩, h6⟩ := h
+  refine ⟨h2, ?_, by omega, by omega, h4, h5, h1⟩
+  intro x hx
+  obtain ⟨_, ⟨⟨hne, hhead⟩, hlast⟩, hzip⟩ := h6 x hx
+  obtain ⟨run, hrun, hP⟩ := exists_preimage_list (fun s : RSeg => (⟨s.id, s.so, s.en⟩ : Gaftools.Conv.Seg))
+    (fun s => s ∈ segs ∧ s.sn = x.1.contig)
+    ((refOf segs x.1.contig).filter (fun sg => decide (sg.so < x.1.e) && decide (x.1.s < sg.en)))
+    (by
+      intro sg hsg
+      obtain ⟨s, hs1, hs2, hs3⟩ := (Gaftools.C03.mem_refOf segs x.1.contig sg).1 (List.mem_filter.1 hsg).1
+      exact ⟨s, ⟨hs1, hs2⟩, hs3⟩)
+  rw [← hrun] at hne hhead hlast hzip
+  refine ⟨run, ?_, hP, touching_of_zip run (List.all_eq_true.2 (fun p hp => by simpa using hzip p hp)), ?_, ?_⟩
+  · intro e; subst e; simp at hne
+  · cases run with
+    | nil => simp at hne
+    | cons a t => simpa using hhead
+  · rw [List.getLast?_map] at hlast
+    cases hg : run.getLast? with
+    | none => simp [hg] at hlast
+    | some a => simpa [hg] using hlast
 
 end Gaftools.Reflect
